@@ -47,6 +47,48 @@ def bound_kind(f, cond, pol, pi):
     return out
 
 
+def validator_bounds(db, h, j, pol, depth=0):
+    """Bounds on parameter j of the boolean helper h that hold whenever h returns `pol`: the intersection, over the returns
+    that can yield pol, of what dominates the return and what the returned expression implies."""
+    if h is None or h.body is None or h.cfg is None or depth > 2:
+        return set()
+    for lv, w in written_lvalues(h):
+        if is_ref_to(h, lv, "param", j):
+            return set()
+    res = None
+    for r in h.live_nodes():
+        if r["k"] != "ReturnStmt" or r.get("value") is None:
+            continue
+        v = r["value"]
+        cv = const_value(v)
+        if cv is not None and bool(cv) != pol:
+            continue
+        b = set()
+        pos = h.cfg.position(r)
+        for c, p2 in (h.cfg.dominating_conditions(pos) if pos is not None else []):
+            if c is not None:
+                b |= bound_kind(h, c, p2, j)
+        if cv is None:
+            for c, p2 in implied_atoms(v, pol):
+                b |= bound_kind(h, c, p2, j)
+        res = b if res is None else (res & b)
+    return res or set()
+
+
+def validator_call(db, f, c, pi):
+    """(helper, its parameter index) when condition c is a call on this / a free call that receives parameter pi of f directly."""
+    sc = strip(c) if c is not None else None
+    if sc is None or sc["k"] not in ("CallExpr", "CXXMemberCallExpr") or sc.get("f") not in db.funcs:
+        return None
+    obj = sc.get("obj")
+    if obj is not None and strip(obj)["k"] != "CXXThisExpr":
+        return None
+    for j, a in enumerate(sc.get("args", [])):
+        if is_ref_to(f, a, "param", pi):
+            return db.funcs[sc["f"]], j
+    return None
+
+
 @rule("R-IDGUARD", 13, "every extract(id): each use of the id that can reach memory is dominated by 0 < id and id <= count; "
                        "the failing path stores 0 to *strLen and returns NULL")
 def r_idguard(db, rep):
@@ -73,6 +115,15 @@ def r_idguard(db, rep):
                                     continue
                                 taint[d["d"]] = n
                                 changed = True
+        # locals filled in by a helper that also receives the id (`locateID(id, &bucket, &pos)`) are derived from it
+        for n in f.live_nodes():
+            if n["k"] in ("CallExpr", "CXXMemberCallExpr") and any(is_ref_to(f, a, "param", 0) for a in n.get("args", [])):
+                for a in n.get("args", []):
+                    sa = strip(a)
+                    if sa["k"] == "UnaryOperator" and sa["op"] == "&":
+                        t = strip(sa["sub"])
+                        if t["k"] == "DeclRefExpr" and t.get("dk") == "local" and t["d"] not in taint:
+                            taint[t["d"]] = n
         uses = [(n, "id") for n in uses_of_param(f, 0)]
         for d in taint:
             uses += [(n, "derived") for n in uses_of_local(f, d)]
@@ -85,6 +136,14 @@ def r_idguard(db, rep):
                         (bound_kind(f, a, True, 0) or bound_kind(f, a, False, 0)):
                     in_guard = True
                     break
+            if not in_guard:
+                # handed to a validating helper (`if (!locateID(id, &bucket, &pos)) return NULL;`): the guard itself
+                for a in par_chain:
+                    if a["k"] in ("CallExpr", "CXXMemberCallExpr"):
+                        vc = validator_call(db, f, a, 0)
+                        if vc is not None and (validator_bounds(db, vc[0], vc[1], True) or validator_bounds(db, vc[0], vc[1], False)):
+                            in_guard = True
+                        break
             if in_guard:
                 continue
             # delegation: the value only feeds another extract / the listed sanitiser / a derived local
@@ -102,6 +161,9 @@ def r_idguard(db, rep):
             for c, pol in doms:
                 if c is not None:
                     bounds |= bound_kind(f, c, pol, 0)
+                    vc = validator_call(db, f, c, 0)
+                    if vc is not None:
+                        bounds |= validator_bounds(db, vc[0], vc[1], pol)
             rep.ob()
             need = {"lower", "upper"}
             if deleg is not False and callee_name(deleg) in ("extract", "binary_search_before_index") and k == "StringDictionaryHASHRPDACBlocks":
